@@ -1,5 +1,6 @@
 (* C06 — the stability checker answers True exactly for matchings without a blocking pair. *)
-From MP Require Import Checker.CheckStability Proofs.CheckerProofs Props.Examples.
+From MP Require Import Checker.CheckStability Run.Session LP.Oracle Proofs.CheckerProofs Proofs.SessionProofs
+                       Proofs.StabLineProofs Props.Examples.
 Local Open Scope list_scope. Open Scope Z_scope.
 
 (* on every well-formed two-sided instance (zero capacities and lecturers without assignees included) and every
@@ -10,6 +11,18 @@ Theorem C06_checker : forall (M : instance) (m : matching),
   check_stability M (assignment_of M m) = Ok (stable_b M m).
 Proof. exact check_correct. Qed.
 Print Assumptions C06_checker.
+
+(* consequently: after a solve with -stab that ended Optimal (any correct MILP back end, any criteria), both result
+   getters print the line "stability_correct: True" *)
+Theorem C06_printed_true : forall s lim e s' long,
+  s_bf s = false -> o_stab (s_opts s) = true ->
+  wf (s_inst s) = true -> two_sided (s_inst s) = true ->
+  milp_ok (s_inst s) (e_solve e) ->
+  do_solve s lim e = Ok s' -> s_status s' = "Optimal"%string ->
+  timed_out s' = false ->
+  exists ri body, lp_results s' long = Ok (results_frame ri (Some "True"%string) body).
+Proof. exact printed_stability_correct. Qed.
+Print Assumptions C06_printed_true.
 
 Example C06_example :
   wf ex_inst = true /\ two_sided ex_inst = true /\ respects_upper_b ex_inst ex_matching = true /\
